@@ -429,6 +429,16 @@ class Effects:
                     pass
                 else:
                     s.sites.append(Site("r", n.attr, n, "attr"))
+            elif isinstance(n.value, ast.Call) and isinstance(n.value.func, ast.Name) and n.value.func.id == "super" and ctx is not None and s.func.cls is not None:
+                after = s.func.cls
+                if n.value.args:
+                    k = self.p.resolve_expr_to_class(s.func.module, n.value.args[0])
+                    if k is not None:
+                        after = k
+                if after in ctx.mro:
+                    r = ctx.lookup(n.attr, after=after)
+                    if r and r[0] == "prop" and r[1].fget is not None:
+                        s.calls.append(CallSite(n, [(ctx, r[1].fget)], "", "super().%s (getter)" % n.attr))
             else:
                 # property load through a typed receiver
                 types = self._expr_types(n.value, s, selfname) if not isinstance(n.value, ast.Name) or n.value.id in s.local_types else s.local_types.get(n.value.id, [])
